@@ -31,6 +31,8 @@ struct macro {
 	char *name;
 	/* whether or not this macro is ineligible for expansion */
 	bool hide;
+	/* number of invocations whose arguments are being read */
+	int reading;
 	/* parameters of function-like macro */
 	struct macroparam *param;
 	size_t nparam;
@@ -216,6 +218,7 @@ define(void)
 	m = xmalloc(sizeof(*m));
 	m->name = tokencheck(&tok, TIDENT, "after #define");
 	m->hide = false;
+	m->reading = 0;
 	t = arrayadd(&repl, sizeof(*t));
 	scan(t);
 	if (t->kind == TLPAREN && !t->space) {
@@ -298,6 +301,8 @@ undef(void)
 	entry = mapput(&macros, &k);
 	m = *entry;
 	if (m) {
+		if (m->reading)
+			error(&tok.loc, "#undef of macro '%s' within the arguments of its own invocation", name);
 		free(name);
 		free(m->param);
 		free(m->token);
@@ -486,6 +491,7 @@ expandfunc(struct macro *m)
 	struct token *t;
 
 	/* read macro arguments */
+	++m->reading;
 	paren = 0;
 	depth = macrodepth;
 	tok = (struct array){0};
@@ -545,6 +551,7 @@ expandfunc(struct macro *m)
 		t += arg[i].ntoken;
 	}
 	m->arg = arg;
+	--m->reading;
 }
 
 static void
